@@ -316,3 +316,11 @@ fn prometheus_to_io_error(e: prometheus::Error) -> io::Error {
         e => io::Error::new(ErrorKind::Other, e.to_string()),
     }
 }
+
+/// Verification door: the text the metrics endpoint would serve right now
+#[cfg(feature = "verif")]
+impl Metrics {
+    pub(crate) fn verif_collect(&self) -> String {
+        String::from_utf8_lossy(&self.collect().1).into_owned()
+    }
+}
